@@ -14,9 +14,34 @@ import (
 func warmUp(tc *tcase, ra *api.RenameAnalysis, changes object.Changes, cache map[plumbing.Hash]*api.CachedBlob) {
 	mode := tc.warm
 	reconf := false
-	if mode > 3 {
+	switch {
+	case mode == 8:
+		mode, reconf = 7, true
+	case mode > 3 && mode < 7:
 		mode -= 3
 		reconf = true
+	}
+	// the same paths with other contents: every addition / deletion carries the blob of the next one of its kind
+	rotated := func() object.Changes {
+		cp := make(object.Changes, len(changes))
+		var adds, dels []int
+		for i, ch := range changes {
+			x := *ch
+			cp[i] = &x
+			from, to := ch.From != (object.ChangeEntry{}), ch.To != (object.ChangeEntry{})
+			if to && !from {
+				adds = append(adds, i)
+			} else if from && !to {
+				dels = append(dels, i)
+			}
+		}
+		for k, i := range adds {
+			cp[i].To.TreeEntry.Hash = changes[adds[(k+1)%len(adds)]].To.TreeEntry.Hash
+		}
+		for k, i := range dels {
+			cp[i].From.TreeEntry.Hash = changes[dels[(k+1)%len(dels)]].From.TreeEntry.Hash
+		}
+		return cp
 	}
 	reversed := func() object.Changes {
 		cp := make(object.Changes, 0, len(changes))
@@ -54,6 +79,8 @@ func warmUp(tc *tcase, ra *api.RenameAnalysis, changes object.Changes, cache map
 	case 3:
 		consume(append(object.Changes{&object.Change{}}, same()...)) // malformed: Consume returns an error
 		consume(reversed())
+	case 7:
+		consume(rotated())
 	}
 	if reconf {
 		// Configure + Initialize again, with the same options: the state of the first series of calls must be gone
@@ -75,5 +102,5 @@ func pickWarm(c *Config) int {
 	if c.Rng.Intn(3) != 0 {
 		return 0
 	}
-	return 1 + c.Rng.Intn(6)
+	return 1 + c.Rng.Intn(8)
 }
